@@ -2,8 +2,8 @@
 C02 (decoders are total): proofs about the checked-index models of `coverage.Read`,
 `coverage.ReadSet` and `classdef.Read` (`SfntV.Total.Otl`): no panic on any bytes at any
 position, the TRUE cost bounds (linear for the array formats, capped by the 16-bit glyph space
-for the range formats, `rangeCount·65536` for `classdef.Read` format 2 — finding #36, with the
-zigzag witness family), the bound restored by the proposed repair, and the bridge to the
+for the range formats, `rangeCount·65536` for `classdef.Read` format 2 BEFORE the repair of finding #36
+(`classdefReadOld`, with the zigzag witness family), the bound restored by the repair, and the bridge to the
 value-level models of C08 (`SfntV.Otl.Cov.read`, `Cov.readSet`, `SfntV.Otl.ClassDef.read`).
 -/
 import SfntV.Model.TotalOtl
@@ -191,11 +191,12 @@ theorem classdefReadG_noPanic (fixed : Bool) (b : Bytes) (pos : Nat) :
   · exact bind_noPanic (readU16_noPanic _ _ _) (fun n _ => cdLoop2_noPanic fixed b n _ _ _ _ _)
   · exact True.intro
 
-/-- `classdef.Read` never panics: all bytes, all positions -/
-theorem classdefRead_noPanic (b : Bytes) (pos : Nat) : (classdefRead b pos).noPanic :=
+/-- the code before the repair of #36 did not panic either -/
+theorem classdefReadOld_noPanic (b : Bytes) (pos : Nat) : (classdefReadOld b pos).noPanic :=
   classdefReadG_noPanic false b pos
 
-theorem classdefReadFixed_noPanic (b : Bytes) (pos : Nat) : (classdefReadFixed b pos).noPanic :=
+/-- `classdef.Read` never panics: all bytes, all positions -/
+theorem classdefRead_noPanic (b : Bytes) (pos : Nat) : (classdefRead b pos).noPanic :=
   classdefReadG_noPanic true b pos
 
 /-! ## cost of the loops -/
@@ -436,7 +437,7 @@ theorem readSet_cost (b : Bytes) (pos : Nat) (r : List Nat) (c : Cost)
     c.steps ≤ b.length / 2 + 131073 ∧ c.alloc ≤ 131072 := by
   rcases readSet_cost_fmt b pos r c h with h | h <;> omega
 
-/-- what `classdef.Read` costs (as it is, `fixed = false`, or repaired), by format: format 1
+/-- what `classdef.Read` costs (before the repair of #36, `fixed = false`, or as it is now), by format: format 1
 `2 + glyphCount` steps and `glyphCount` elements (charged by the `make`), `glyphCount ≤ (|b|−6)/2`;
 format 2 at most `2 + rangeCount·65537` steps with `rangeCount ≤ (|b|−4)/6` -/
 theorem classdefReadG_cost_fmt (fixed : Bool) (b : Bytes) (pos : Nat) (r : List (Nat × Nat))
@@ -471,25 +472,25 @@ theorem classdefReadG_cost_fmt (fixed : Bool) (b : Bytes) (pos : Nat) (r : List 
     exact Or.inr ⟨hw, by omega, by omega⟩
   · cases h
 
-/-- `classdef.Read` as it is: `steps ≤ (|b|/6)·65537 + |b|/2 + 2` — NOT linear with a small
-constant (finding #36, `classdef2_zigzag_cost`) -/
-theorem classdefRead_cost (b : Bytes) (pos : Nat) (r : List (Nat × Nat)) (c : Cost)
-    (h : classdefRead b pos = .ok (r, c)) :
+/-- `classdef.Read` BEFORE the repair: `steps ≤ (|b|/6)·65537 + |b|/2 + 2` — NOT linear with a
+small constant (finding #36, `classdef2_zigzag_cost`) -/
+theorem classdefReadOld_cost (b : Bytes) (pos : Nat) (r : List (Nat × Nat)) (c : Cost)
+    (h : classdefReadOld b pos = .ok (r, c)) :
     c.steps ≤ (b.length / 6) * 65537 + b.length / 2 + 2 ∧
       c.alloc ≤ (b.length / 6) * 65536 + b.length / 2 + 1 := by
   rcases classdefReadG_cost_fmt false b pos r c h with h | h <;> omega
 
-/-- the repaired `classdef.Read`, by format: format 2 is back to `|b|/6 + 65536 + 2` steps and
+/-- `classdef.Read` as it is now (repaired), by format: format 2 is back to `|b|/6 + 65536 + 2` steps and
 `65537` elements -/
-theorem classdefReadFixed_cost_fmt (b : Bytes) (pos : Nat) (r : List (Nat × Nat))
-    (c : Cost) (h : classdefReadFixed b pos = .ok (r, c)) :
+theorem classdefRead_cost_fmt (b : Bytes) (pos : Nat) (r : List (Nat × Nat))
+    (c : Cost) (h : classdefRead b pos = .ok (r, c)) :
     (wordAt b pos = some 1 ∧ c.steps ≤ b.length / 2 + 2 ∧ c.alloc ≤ b.length / 2 ∧
         c.alloc ≤ 65535) ∨
     (wordAt b pos = some 2 ∧ c.steps ≤ b.length / 6 + 65538 ∧ c.alloc ≤ 65537) := by
   rcases classdefReadG_cost_fmt true b pos r c h with h1 | ⟨hw, _⟩
   · exact Or.inl h1
   refine Or.inr ⟨hw, ?_⟩
-  unfold classdefReadFixed classdefReadG at h
+  unfold classdefRead classdefReadG at h
   obtain ⟨version, hf, h⟩ := bind_eq_ok h
   obtain ⟨hw', _, _⟩ := readU16_ok hf
   rw [hw] at hw'
@@ -501,11 +502,11 @@ theorem classdefReadFixed_cost_fmt (b : Bytes) (pos : Nat) (r : List (Nat × Nat
   simp only [Cost.tick, Cost.mem, Cost.zero] at this
   omega
 
-/-- the repaired `classdef.Read`, any format: `steps ≤ |b|/2 + 65538`, `alloc ≤ 65537` -/
-theorem classdefReadFixed_cost (b : Bytes) (pos : Nat) (r : List (Nat × Nat)) (c : Cost)
-    (h : classdefReadFixed b pos = .ok (r, c)) :
+/-- `classdef.Read` as it is now, any format: `steps ≤ |b|/2 + 65538`, `alloc ≤ 65537` -/
+theorem classdefRead_cost (b : Bytes) (pos : Nat) (r : List (Nat × Nat)) (c : Cost)
+    (h : classdefRead b pos = .ok (r, c)) :
     c.steps ≤ b.length / 2 + 65538 ∧ c.alloc ≤ 65537 := by
-  rcases classdefReadFixed_cost_fmt b pos r c h with h | h <;> omega
+  rcases classdefRead_cost_fmt b pos r c h with h | h <;> omega
 
 /-! ## witnesses: the caps are reached, and finding #36 -/
 
@@ -606,10 +607,10 @@ theorem zigzag_length (n : Nat) : (zigzag n).length = 12 * n + 4 := by
   omega
 
 /-- FINDING #36 as a theorem.  The zigzag table of `2n` ranges (`12n + 4` bytes) is accepted by
-`classdef.Read` as it is, and decoding it costs `2 + n·65536` steps (`n·65534` map writes):
+`classdef.Read` as it was before the repair, and decoding it costs `2 + n·65536` steps (`n·65534` map writes):
 the cost per input byte is unbounded below 5461 -/
 theorem classdef2_zigzag_cost (n : Nat) (hn : n < 32768) :
-    ∃ r c, classdefRead (zigzag n) 0 = .ok (r, c) ∧ c.steps = 2 + n * 65536 ∧
+    ∃ r c, classdefReadOld (zigzag n) 0 = .ok (r, c) ∧ c.steps = 2 + n * 65536 ∧
       c.steps ≥ n * 65534 ∧ c.alloc = 1 + n * 65534 ∧ (zigzag n).length = 12 * n + 4 := by
   have hfmt : readU16 "classdef.go:72#ReadUint16" (zigzag n) 0 = .ok 2 := by
     rw [readU16_eq]; rfl
@@ -623,7 +624,7 @@ theorem classdef2_zigzag_cost (n : Nat) (hn : n < 32768) :
   obtain ⟨r, c, hrec, hs, ha⟩ := cdLoop2_zig (zigzag n) n (0 + 4) 0 0 []
     (Cost.zero.tick.tick.mem 1) hdrop (Or.inl rfl)
   refine ⟨r, c, ?_, ?_, ?_, ?_, zigzag_length n⟩
-  · unfold classdefRead classdefReadG
+  · unfold classdefReadOld classdefReadG
     rw [hfmt, ok_bind]
     dsimp only
     rw [if_neg (by omega), if_pos rfl, hcnt, ok_bind, hrec]
@@ -631,19 +632,19 @@ theorem classdef2_zigzag_cost (n : Nat) (hn : n < 32768) :
   · simp only [Cost.tick, Cost.mem, Cost.zero] at hs; omega
   · simp only [Cost.tick, Cost.mem, Cost.zero] at ha; omega
 
-/-- hence no bound `steps ≤ 2000·|b| + 2000` holds for `classdef.Read` (witness: 10 repetitions,
+/-- hence no bound `steps ≤ 2000·|b| + 2000` held for the unrepaired `classdef.Read` (witness: 10 repetitions,
 124 bytes, 655 362 steps) -/
-theorem classdefRead_not_linear :
+theorem classdefReadOld_not_linear :
     ¬ ∀ (b : Bytes) (pos : Nat) (r : List (Nat × Nat)) (c : Cost),
-      classdefRead b pos = .ok (r, c) → c.steps ≤ 2000 * b.length + 2000 := by
+      classdefReadOld b pos = .ok (r, c) → c.steps ≤ 2000 * b.length + 2000 := by
   intro h
   obtain ⟨r, c, hr, hs, _, _, hl⟩ := classdef2_zigzag_cost 10 (by omega)
   have := h _ _ r c hr
   rw [hs, hl] at this
   omega
 
-/-- the repaired reader rejects the zigzag (already its second range) -/
-example : classdefReadFixed (zigzag 1) 0 = .err "invalid" := by decide +kernel
+/-- the reader as it is now rejects the zigzag (already its second range) -/
+example : classdefRead (zigzag 1) 0 = .err "invalid" := by decide +kernel
 
 /-! ## non-vacuity -/
 
@@ -664,8 +665,8 @@ example : classdefRead [0,2, 0,2, 0,5, 0,6, 0,1, 0,9, 0,9, 0,3] 0
     = .ok ([(9,3), (5,1), (6,1)], ⟨7, 4⟩) := by decide +kernel
 /-- a position beyond the end is an I/O error, not a panic -/
 example : classdefRead [0,2, 0,0] 1000 = .err "io" := by decide +kernel
-/-- the repaired reader accepts the increasing table and agrees with the unrepaired one -/
-example : classdefReadFixed [0,2, 0,2, 0,5, 0,6, 0,1, 0,9, 0,9, 0,3] 0
+/-- on an increasing table the code before the repair gave the same result -/
+example : classdefReadOld [0,2, 0,2, 0,5, 0,6, 0,1, 0,9, 0,9, 0,3] 0
     = .ok ([(9,3), (5,1), (6,1)], ⟨7, 4⟩) := by decide +kernel
 
 end SfntV.Total.Otl
